@@ -860,7 +860,11 @@ rt_prop("C09", ["bridge", "hosts"],
         "(bridge_simulates_core_response): decoded requests = core effects in order, same core state; ids of a batch are pairwise "
         "distinct, were not in use, and address the resolve of their effect (ids_fresh_and_distinct); an outstanding id is never "
         "reused nor disturbed (outstanding_id_not_reused); resume routes to exactly the addressed entry and touches no other "
-        "(resume_routes_exactly); the registry invariant holds in every reachable state (registry_wf_invariant). Ids and registry "
+        "(resume_routes_exactly); the registry invariant holds in every reachable state (registry_wf_invariant). THE BRIDGE IS A "
+        "REGISTRY AROUND THE SAME CORE (bridge_preserves_core_invariants, Lemmas/BridgeInv.lean): every Core invariant preserved by "
+        "process_event, process, resolve, sender drop and abort holds in every state the Bridge reaches after every history of "
+        "events, raw events, responses, raw responses, stale/unknown ids, aborts and probes; instances bridge_core_owns_channels "
+        "(hosting order + channel ownership of C06/C02) and bridge_core_quiescent_flat (the scheduling invariant of C01). Ids and registry "
         "content are compared exactly with the implementation on every run (bincode and JSON bridges).")
 rt_prop("C12", ["malformed", "bridge"],
         "Proof (Props/C12.lean): a rejected event leaves the bridge exactly as it was (rejected_event_inert); a rejected response to a "
